@@ -6,8 +6,8 @@ import (
 	"strings"
 	"testing"
 
-	"pgregory.net/rapid"
 	pb "google.golang.org/protobuf/proto"
+	"pgregory.net/rapid"
 
 	"github.com/oxia-db/oxia/proto"
 
@@ -23,7 +23,7 @@ const (
 	kfSeqBadSuffix      = gen.KfSeqBadSuffix
 )
 
-func p64(v int64) *int64   { return &v }
+func p64(v int64) *int64    { return &v }
 func pstr(v string) *string { return &v }
 
 // comparable dump: everything decoded where serialization is not deterministic (notification maps).
@@ -140,7 +140,6 @@ func TestC13_Structured(t *testing.T) {
 	rapid.Check(t, runC13)
 }
 
-
 // TestKF_C13 re-confirms the listed known findings of C13 with scripted inputs (no generator):
 // each prints its KNOWN-FINDING line only if the failure still occurs.
 func TestKF_C13(t *testing.T) {
@@ -154,8 +153,6 @@ func TestKF_C13(t *testing.T) {
 		return &proto.WriteRequest{Puts: []*proto.PutRequest{{Key: key, Value: []byte("v"), PartitionKey: pk, SequenceKeyDelta: deltas}}}
 	}
 	cases := []kf{
-		{kfSeqNoPartitionKey, nil, seqPut("s", nil, 1), "a put with sequence deltas and no partition key is accepted into the log and fails in application with an infrastructure error (ProcessWrite: 'sequential key operation requires partition key')"},
-		{kfSeqZeroDelta, nil, seqPut("s", pstr("p"), 0), "a put whose first sequence delta is 0 fails in application with an infrastructure error"},
 		{kfSeqFewerDeltas, []*proto.WriteRequest{seqPut("s", pstr("p"), 1, 1)}, seqPut("s", pstr("p"), 1), "a sequence put with fewer deltas than the existing key has suffixes fails in application with an infrastructure error"},
 		{kfSeqBadSuffix, []*proto.WriteRequest{{Puts: []*proto.PutRequest{{Key: "s-+", Value: []byte("v")}}}}, seqPut("s", pstr("p"), 1), "a sequence put over a prefix whose highest existing key has a non-numeric suffix ('s-+') fails in application with an infrastructure error"},
 	}
